@@ -885,6 +885,14 @@ inline int run_property(const Property& prop, const std::string& rule) {
             break;
         }
         uint64_t idx = sh->case_index;
+        if (o.kind == ChildOutcome::crashed && o.signal_no == SIGKILL) {
+            // SIGKILL is never raised by the code under test: it is the kernel's OOM killer (or an operator). Resource noise, not a verdict.
+            res.notes.push_back("case " + std::to_string(idx) + ": child was killed by SIGKILL (out-of-memory killer?); case skipped");
+            count("child_sigkilled");
+            res.inconclusive = true;
+            next = idx + 1;
+            continue;
+        }
         const uint64_t nch = sh->n_choices;
         std::vector<uint64_t> seq(sh->choices, sh->choices + std::min<uint64_t>(nch, MAX_CHOICES));
         std::string err_tail = read_tail(errpath, 6000);
